@@ -172,7 +172,7 @@ Lemma rn_ready_inv n n' rd :
                           <| rn_commit_since_index := csi |>) = Ok (n2, light)
     /\ n' = n2 <| rn_records := recs ++ [mkRR (rn_max_number n + 1)
                                             (rec_last_of (u_entries (unst (r_log (rn_raft n)))))
-                                            rec_snap] |>
+                                            rec_snap (hs_changed n && tv_changed n)] |>
     /\ rd = mkRd (rn_max_number n + 1)
               (if negb (ss_eqb (soft_state_of (rn_raft n)) (rn_prev_ss n))
                then Some (soft_state_of (rn_raft n)) else None)
@@ -180,7 +180,8 @@ Lemma rn_ready_inv n n' rd :
               (r_read_states (rn_raft n))
               (u_entries (unst (r_log (rn_raft n))))
               snap
-              (negb (is_leader (rn_raft n)))
+              (negb (is_leader (rn_raft n)) || (hs_changed n && tv_changed n)
+               || existsb rr_hs_changed recs)
               light
               ((hs_changed n && tv_changed n) || ms2
                || nonempty (u_entries (unst (r_log (rn_raft n))))).
@@ -222,12 +223,14 @@ Theorem ready_entries_are_unstable n n' rd :
   /\ (rd_ss rd = None <-> soft_state_of (rn_raft n) = rn_prev_ss n)
   /\ rd_snapshot rd = match u_snapshot (unst (r_log (rn_raft n))) with
                       | Some s => s | None => snap_default end
-  /\ rd_is_persisted_msg rd = negb (is_leader (rn_raft n))
   /\ (exists recs, ready_records n recs /\
+        rd_is_persisted_msg rd = negb (is_leader (rn_raft n)) || (hs_changed n && tv_changed n)
+                                 || existsb rr_hs_changed recs /\
         rn_records n' = recs ++
           [mkRR (rn_max_number n + 1)
                 (rec_last_of (u_entries (unst (r_log (rn_raft n)))))
-                (option_map (fun s => (s_index s, s_term s)) (u_snapshot (unst (r_log (rn_raft n)))))])
+                (option_map (fun s => (s_index s, s_term s)) (u_snapshot (unst (r_log (rn_raft n)))))
+                (hs_changed n && tv_changed n)])
   /\ rn_prev_hs n' = rn_prev_hs n /\ rn_prev_ss n' = rn_prev_ss n
   /\ r_log (rn_raft n') = r_log (rn_raft n)
   /\ r_read_states (rn_raft n') = [] /\ r_msgs (rn_raft n') = [].
@@ -260,7 +263,7 @@ Proof.
   - destruct (ss_eqb _ _) eqn:E; cbn; [intros _|discriminate]. apply ss_eqb_eq; exact E.
   - intros E. apply ss_eqb_eq in E. rewrite E. reflexivity.
   - exact Hs1.
-  - exists recs. split; [exact Hrec|]. rewrite Hs2. reflexivity.
+  - exists recs. split; [exact Hrec|]. split; [reflexivity|]. rewrite Hs2. reflexivity.
 Qed.
 
 (* ------------------------------------------------------------------ *)
@@ -315,35 +318,41 @@ Proof.
   rewrite firstn_length, skipn_length in C. cbn in C. lia.
 Qed.
 
+Lemma mem_first_index_of m f : MemStorage.first_index m = Ok f -> f = first_of m.
+Proof.
+  unfold MemStorage.first_index, first_of. destruct (entries m).
+  - destruct (snap_index m =? u64_max); [discriminate|]. intros H; inversion H; reflexivity.
+  - intros H; inversion H; reflexivity.
+Qed.
+
 Lemma storage_entries_shape m lo hi max ctx m' r :
   storage_entries m lo hi max ctx = Ok (m', SOk r) ->
   lo < hi ->
   r <> [] /\ N.of_nat (length r) <= hi - lo
-  /\ exists e0 t, entries m = e0 :: t /\ e_index e0 <= lo /\
-       hi <= e_index e0 + N.of_nat (length (entries m)) /\
-       r = limit_size (firstn (N.to_nat (hi - lo)) (skipn (N.to_nat (lo - e_index e0)) (entries m))) max.
+  /\ first_of m <= lo /\ hi <= first_of m + N.of_nat (length (entries m))
+  /\ r = limit_size (firstn (N.to_nat (hi - lo)) (skipn (N.to_nat (lo - first_of m)) (entries m))) max.
 Proof.
   unfold storage_entries. intros H Hlt. inv_bind H. rename x into f.
   destruct (lo <? f) eqn:E1; [inversion H|].
   destruct (MemStorage.last_index m =? u64_max); [discriminate|].
   destruct (MemStorage.last_index m + 1 <? hi); [discriminate|].
   destruct (trig_log m && can_async ctx); [inversion H|].
-  destruct (entries m) as [|e0 t] eqn:El; [discriminate|].
-  unfold MemStorage.first_index in Hx. rewrite El in Hx. inversion Hx; subst f. clear Hx.
-  destruct (hi <? e_index e0) eqn:E2; [discriminate|].
-  destruct (N.to_nat (hi - e_index e0) <? N.to_nat (lo - e_index e0))%nat eqn:E3; [discriminate|].
-  destruct (length (e0 :: t) <? N.to_nat (hi - e_index e0))%nat eqn:E4; [discriminate|].
-  inversion H; subst; clear H.
-  replace (N.to_nat (hi - e_index e0) - N.to_nat (lo - e_index e0))%nat
+  rewrite Hx in H. cbn [bind] in H.
+  apply mem_first_index_of in Hx. subst f.
+  destruct (hi <? first_of m) eqn:E2; [discriminate|].
+  destruct (N.to_nat (hi - first_of m) <? N.to_nat (lo - first_of m))%nat eqn:E3; [discriminate|].
+  destruct (length (entries m) <? N.to_nat (hi - first_of m))%nat eqn:E4; [discriminate|].
+  injection H as Hm Hr. subst m' r.
+  replace (N.to_nat (hi - first_of m) - N.to_nat (lo - first_of m))%nat
     with (N.to_nat (hi - lo)) by lia.
   split; [|split].
   - apply limit_size_nonempty.
-    replace (N.to_nat (hi - lo)) with (N.to_nat (hi - e_index e0) - N.to_nat (lo - e_index e0))%nat by lia.
+    replace (N.to_nat (hi - lo)) with (N.to_nat (hi - first_of m) - N.to_nat (lo - first_of m))%nat by lia.
     apply firstn_skipn_nonempty; lia.
   - pose proof (limit_size_length
-        (firstn (N.to_nat (hi - lo)) (skipn (N.to_nat (lo - e_index e0)) (e0 :: t))) max) as L.
+        (firstn (N.to_nat (hi - lo)) (skipn (N.to_nat (lo - first_of m)) (entries m))) max) as L.
     rewrite firstn_length in L. lia.
-  - exists e0, t. repeat split; try reflexivity; lia.
+  - repeat split; try reflexivity; lia.
 Qed.
 
 Lemma u_slice_shape u lo hi r :
@@ -412,6 +421,7 @@ Lemma next_entries_since_has l since max oe :
   next_entries_since l since max = Ok oe ->
   exists f ub,
     first_index l = Ok f /\ applied_index_upper_bound l = Ok ub
+    /\ since <> u64_max /\ ub < u64_max
     /\ has_next_entries_since l since = Ok (N.max (since + 1) f <? ub + 1)
     /\ (N.max (since + 1) f < ub + 1 ->
           exists v, oe = Some v /\ v <> [] /\ N.of_nat (length v) <= ub + 1 - N.max (since + 1) f
@@ -419,8 +429,16 @@ Lemma next_entries_since_has l since max oe :
     /\ (ub + 1 <= N.max (since + 1) f -> oe = None).
 Proof.
   unfold next_entries_since, has_next_entries_since. intros H.
+  destruct (since =? u64_max) eqn:Es; [discriminate|].
   inv_bind H. rename x into f. inv_bind H. rename x into ub.
-  exists f, ub. rewrite Hx, Hx0. cbn [bind]. repeat split; try reflexivity.
+  destruct (ub =? u64_max) eqn:Eu; [discriminate|].
+  assert (Hub : ub <= u64_max).
+  { unfold applied_index_upper_bound in Hx0.
+    destruct (u64_max <? persisted l + max_apply_unpersisted_log_limit l) eqn:E; [discriminate|].
+    inversion Hx0. lia. }
+  exists f, ub. rewrite Hx, Hx0. cbn [bind]. rewrite Eu.
+  split; [reflexivity|]. split; [reflexivity|].
+  split; [lia|]. split; [lia|]. split; [reflexivity|]. split.
   - intros Hlt. destruct (N.max (since + 1) f <? ub + 1) eqn:E; [|lia].
     inv_bind H. destruct x as [v|e]; [|discriminate]. inversion H; subst.
     destruct (slice_shape _ _ _ _ _ Hx1 Hlt) as [A B]. exists v. repeat split; auto.
@@ -524,7 +542,7 @@ Proof.
   assert (Hss : rd_ss rd <> None <-> soft_state_of (rn_raft n) <> rn_prev_ss n) by (rewrite R4'; tauto).
   assert (Hhs : rd_hs rd <> None <-> Raft.hard_state_of (rn_raft n) <> rn_prev_hs n) by (rewrite R3'; tauto).
   rewrite Hss, Hhs.
-  destruct (next_entries_since_has _ _ _ _ Hoe) as (f & ub & Hf & Hub & Hhas & Hsome & Hnone).
+  destruct (next_entries_since_has _ _ _ _ Hoe) as (f & ub & Hf & Hub & _ & _ & Hhas & Hsome & Hnone).
   unfold ready_snap in Hsnap.
   destruct (u_snapshot (unst (r_log (rn_raft n)))) as [s|] eqn:Es.
   - destruct Hsnap as (Hle & Hno & E). inversion E; subst snap csi rec_snap ms2. clear E.
@@ -536,9 +554,9 @@ Proof.
     rewrite Hsn.
     assert (Hnx : has_next_entries_since (r_log (rn_raft n)) (rn_commit_since_index n) = Ok true ->
                   s_index s <> 0).
-    { intros C D. assert (rn_commit_since_index n = s_index s) by lia.
+    { intros C D. assert (rn_commit_since_index n = s_index s) by (clear - Hle D; lia).
       rewrite H0, Hhas in C. rewrite Hno' in C. discriminate. }
-    tauto.
+    clear - Hnx. tauto.
   - inversion Hsnap; subst snap csi rec_snap ms2. cbn [s_index snap_default].
     assert (Hnx : has_next_entries_since (r_log (rn_raft n)) (rn_commit_since_index n) = Ok true <->
                   ce_of oe <> []).
@@ -549,7 +567,7 @@ Proof.
     rewrite Hnx.
     assert (Hsn : ~ (exists s0 : snapshot, None = Some s0 /\ s_index s0 <> 0))
       by (intros (s0 & A & _); discriminate).
-    tauto.
+    clear - Hsn. tauto.
 Qed.
 
 (* ------------------------------------------------------------------ *)
@@ -571,10 +589,9 @@ Definition log_range (l : raft_log) (lo hi : N) : list entry := store_part l lo 
 
 (* the side conditions slice has checked when it answers Ok *)
 Definition range_ok (l : raft_log) (lo hi : N) : Prop :=
-  (lo < u_offset (unst l) ->
+  lo < u_offset (unst l) ->
      first_of (store l) <= lo /\
-     N.min hi (u_offset (unst l)) <= first_of (store l) + N.of_nat (length (entries (store l))))
-  /\ (u_offset (unst l) < hi -> hi <= u_offset (unst l) + N.of_nat (length (u_entries (unst l)))).
+     N.min hi (u_offset (unst l)) <= first_of (store l) + N.of_nat (length (entries (store l))).
 
 Lemma firstn_all_ge {A} (l : list A) k : (length l <= k)%nat -> firstn k l = l.
 Proof. intros H. apply firstn_all2. exact H. Qed.
@@ -597,11 +614,9 @@ Proof.
     unfold store_entries in Hx1. inv_bind Hx1. destruct x0 as [m' r]. cbn in Hx1.
     inversion Hx1; subst r; clear Hx1.
     apply storage_entries_shape in Hx2; [|lia].
-    destruct Hx2 as (A & B & e0 & t & Hents & Hlo & Hhi & Hr).
-    assert (Hfo : first_of (store l) = e_index e0) by (unfold first_of; rewrite Hents; reflexivity).
-    rewrite Hfo.
+    destruct Hx2 as (A & B & Hlo & Hhi & Hr).
     set (S0 := firstn (N.to_nat (N.min hi (u_offset (unst l)) - lo))
-                 (skipn (N.to_nat (lo - e_index e0)) (entries (store l)))) in *.
+                 (skipn (N.to_nat (lo - first_of (store l))) (entries (store l)))) in *.
     destruct (limit_size_prefix S0 max) as (k0 & Hk0 & Ek0). rewrite <- Hr in Ek0.
     assert (Hk0pos : (1 <= k0)%nat).
     { destruct k0; [|lia]. rewrite Ek0 in A. cbn in A. congruence. }
@@ -609,27 +624,20 @@ Proof.
     { unfold S0. rewrite firstn_length. lia. }
     destruct (N.of_nat (length ents0) <? N.min hi (u_offset (unst l)) - lo) eqn:E2.
     + inversion Hx0; subst x; clear Hx0. inversion H; subst v; clear H.
-      split.
-      { split; [intros _; split; lia|].
-        intros Hoff. destruct (u_offset (unst l) <? hi) eqn:E3; [|lia].
-        (* hi > off: the unstable part was not consulted; nothing is known about it,
-           but then min hi off = off and the store answered short: early return *)
-        exfalso. rewrite Ek0, firstn_length in E2.
-        (* cannot conclude: handled below *)
-        clear -E2 Hk0 HS0len. lia. }
+      split; [intros _; split; lia|].
       exists k0. split; [exact Hk0pos|]. rewrite app_length. split; [lia|].
       rewrite Ek0. rewrite firstn_app.
       replace (k0 - length S0)%nat with 0%nat by lia. cbn [firstn]. rewrite app_nil_r. reflexivity.
     + inversion Hx0; subst x; clear Hx0.
       assert (Hfull : ents0 = S0).
       { rewrite Ek0. apply firstn_all_ge. rewrite Ek0, firstn_length in E2. lia. }
-      subst ents0.
+      clear Hr Ek0. subst ents0.
       inv_bind H. inversion H; subst v; clear H.
       destruct (u_offset (unst l) <? hi) eqn:E3.
       * inv_bind Hx0. inversion Hx0; subst x; clear Hx0.
         apply u_slice_shape in Hx1; [|lia].
         destruct Hx1 as (A' & B' & C' & D' & E').
-        split; [split; [intros _; split; lia|intros _; exact D']|].
+        split; [intros _; split; lia|].
         rewrite <- E'.
         destruct (limit_size_prefix (S0 ++ x0) max) as (k & Hk & Ek).
         exists k. split; [|split; [exact Hk|exact Ek]].
@@ -637,20 +645,19 @@ Proof.
         apply (limit_size_nonempty (S0 ++ x0) max); [|exact Ek].
         destruct S0; [congruence|discriminate].
       * inversion Hx0; subst x; clear Hx0.
-        split; [split; [intros _; split; lia|intros C; lia]|].
+        split; [intros _; split; lia|].
         rewrite app_nil_r.
         destruct (limit_size_prefix S0 max) as (k & Hk & Ek).
         exists k. split; [|split; [exact Hk|exact Ek]].
         destruct k; [|lia]. exfalso. cbn in Ek.
-        apply (limit_size_nonempty S0 max); [|exact Ek]. rewrite Hr in A.
-        intros C. rewrite C in A. apply A. reflexivity.
+        apply (limit_size_nonempty S0 max); [exact A|exact Ek].
   - inversion Hx0; subst x; clear Hx0.
     inv_bind H. inversion H; subst v; clear H.
     destruct (u_offset (unst l) <? hi) eqn:E3; [|lia].
     inv_bind Hx0. inversion Hx0; subst x; clear Hx0.
     apply u_slice_shape in Hx1; [|lia].
     destruct Hx1 as (A' & B' & C' & D' & E').
-    split; [split; [intros C; lia|intros _; exact D']|].
+    split; [intros C; lia|].
     rewrite <- E'. cbn [app].
     destruct (limit_size_prefix x0 max) as (k & Hk & Ek).
     exists k. split; [|split; [exact Hk|exact Ek]].
